@@ -3,6 +3,7 @@ package main
 import (
 	"go/token"
 	"go/types"
+	"sort"
 	"strings"
 
 	"golang.org/x/tools/go/ssa"
@@ -332,6 +333,7 @@ func checkKeyidUnmarshal(c *Ctx, kid *types.Named) {
 	f := w.Facts(fn)
 	// the decoded struct: an Alloc of KeyID handed to json.Unmarshal
 	var dec *ssa.Alloc
+	var decVal ssa.Value // the value denoting the struct in Unmarshal when it is obtained from a constructor
 	var jStruct, jMap *ssa.Call
 	for _, call := range w.callsToDeep(fn, "encoding/json.Unmarshal") {
 		cv, isCall := call.(*ssa.Call)
@@ -339,6 +341,29 @@ func checkKeyidUnmarshal(c *Ctx, kid *types.Named) {
 			continue
 		}
 		tgt := strip(cv.Call.Args[1])
+		if _, isAlloc := tgt.(*ssa.Alloc); !isAlloc {
+			// the struct obtained from a constructor of the package
+			if a, ok := w.canon(fn, tgt).(*ssa.Alloc); ok && types.Identical(a.Type().(*types.Pointer).Elem(), kid) {
+				tgt = a
+			} else if hc, isCall := throughCell(strip(tgt)).(*ssa.Call); isCall {
+				if h := hc.Call.StaticCallee(); h != nil && w.InRepo(h) && h.Blocks != nil && h.Signature.Results().Len() == 1 {
+					var allocs []*ssa.Alloc
+					okAll := true
+					for _, r := range liveReturns(h) {
+						for _, lf := range w.leaves(r.Results[0], r, false) {
+							if a, isA := throughCell(strip(lf.Val)).(*ssa.Alloc); isA && types.Identical(a.Type().(*types.Pointer).Elem(), kid) {
+								allocs = append(allocs, a)
+							} else {
+								okAll = false
+							}
+						}
+					}
+					if okAll && len(allocs) == 1 {
+						tgt, decVal = allocs[0], hc
+					}
+				}
+			}
+		}
 		if a, ok := tgt.(*ssa.Alloc); ok {
 			el := a.Type().(*types.Pointer).Elem()
 			if types.Identical(el, kid) {
@@ -351,6 +376,19 @@ func checkKeyidUnmarshal(c *Ctx, kid *types.Named) {
 	if dec == nil || jStruct == nil || jMap == nil {
 		c.Unresolved("R3.gate", "the two json.Unmarshal calls (struct and map) in keyid.Unmarshal")
 		return
+	}
+	isDec := func(v ssa.Value) bool {
+		return w.canon(fn, v) == ssa.Value(dec) || (decVal != nil && throughCell(strip(v)) == decVal)
+	}
+	// the text is decoded into a zero KeyID: a field that the text leaves out or sets to null must not keep a default
+	// (json leaves such a field untouched), or a text without a usable version would decode as a supported one
+	{
+		var pre []string
+		for fld := range FieldStores(dec.Parent(), dec) {
+			pre = append(pre, fld)
+		}
+		sort.Strings(pre)
+		c.Check(len(pre) == 0, "R3.gate", "Unmarshal|decodes into a zero KeyID", w.Pos(jStruct.Pos()), "a fresh KeyID with no field set", "the struct the text is decoded into has fields set beforehand ("+strings.Join(pre, ", ")+"): a key the text omits or sets to null keeps that value")
 	}
 	c.Check(w.SameValue(fn, jStruct.Call.Args[0], jMap.Call.Args[0]) && w.Expr(jStruct.Call.Args[0]) == "conv<[]byte>(p0)", "R3.gate", "Unmarshal|same bytes decoded twice", w.Pos(jMap.Pos()), "struct and key map are decoded from the input text", "the required-key map is not decoded from the same bytes as the struct")
 	var chk *ssa.Call
@@ -457,7 +495,7 @@ func checkKeyidUnmarshal(c *Ctx, kid *types.Named) {
 		})
 		c.Check(done, "R3.gate", "Unmarshal|required-key loop exhausted", w.Pos(r.Pos()), "must-fact: range over the required keys ran to completion", "Unmarshal can succeed before every required key was looked up (loop left early)")
 		okChk := false
-		if chk != nil && len(chk.Call.Args) == 1 && w.canon(fn, chk.Call.Args[0]) == ssa.Value(dec) {
+		if chk != nil && len(chk.Call.Args) == 1 && isDec(chk.Call.Args[0]) {
 			if lk := lookupOn(chk.Call.Value, keyidCheckerTable, w); lk != nil && strings.HasSuffix(w.Expr(lk.Index), ".Version") {
 				if isNil, known := f.KnownNil(b, chk); known && isNil {
 					okChk = true
@@ -466,7 +504,7 @@ func checkKeyidUnmarshal(c *Ctx, kid *types.Named) {
 		}
 		okChk = okChk || w.dispatcherPassed(fn, f, b, dec)
 		c.Check(okChk, "R3.gate", "Unmarshal|consistency check passed", w.Pos(r.Pos()), "must-fact: checker(decoded) == nil", "Unmarshal can succeed without the must-fact that the version's checker accepted the decoded KeyID")
-		c.Check(w.canon(fn, r.Results[0]) == ssa.Value(dec), "R3.gate", "Unmarshal|returns the decoded struct", w.Pos(r.Pos()), "the struct json decoded into", "Unmarshal returns something other than the struct it decoded and checked: "+w.Short(r.Results[0]))
+		c.Check(isDec(r.Results[0]), "R3.gate", "Unmarshal|returns the decoded struct", w.Pos(r.Pos()), "the struct json decoded into", "Unmarshal returns something other than the struct it decoded and checked: "+w.Short(r.Results[0]))
 	}
 	c.Floor("R3.gate", n, 1, "successful return of Unmarshal")
 	// no field store into the decoded struct
